@@ -228,14 +228,16 @@ def scenario(inst, V):
     # user categories with uninterpreted patterns: patch the type test for re.Pattern
     members = inst.get("members") or dict(USERCATS)[inst["cat"]]
     Cat = user_category(inst["cat"], members)
-    real_re = at.re
+    import re as real_re
 
     class _Re:
         Pattern = StubPattern
 
         def __getattr__(self, k):
             return getattr(real_re, k)
-    at.re = _Re()
+    saved_globals = {k: v for k, v in vars(at).items() if v is real_re or v is real_re.Pattern}
+    for k, v in saved_globals.items():
+        setattr(at, k, _Re() if v is real_re else StubPattern)
     StubPattern.used = {}
     StubPattern.concrete = V.concrete
     StubPattern.concrete_vals = getattr(V, "vals", {})
@@ -243,7 +245,8 @@ def scenario(inst, V):
     try:
         got = c01.observe_check(duck(name), Cat[duck, "..."])
     finally:
-        at.re = real_re
+        for k, v in saved_globals.items():
+            setattr(at, k, v)
     terms = []
     for m in members:
         if m.startswith("@pat"):
